@@ -210,13 +210,13 @@ def tailMatch (r : Str) : Option Nat :=
   let q := if quote3.isPrefixOf r then 3 else 0
   let r1 := r.drop q
   let ws := (r1.takeWhile isPySpace).length
-  let r2 := r1.drop ws
+  let r2 := r1.dropWhile isPySpace
   match r2 with
   | [] => some (q + ws)
   | c :: _ =>
     if isOpen c then
       let run := (r2.takeWhile isOpen).length
-      if (r2.drop run).isEmpty then some (q + ws + run) else some (q + ws + run - 1)
+      if (r2.dropWhile isOpen).isEmpty then some (q + ws + run) else some (q + ws + run - 1)
     else none
 
 /-- the lazy group `(.*?)`: shortest prefix after which `tailMatch` succeeds -/
@@ -233,7 +233,7 @@ def searchName : Str → Nat → Option (Str × Nat)
   | c :: cs, i =>
     if c == '*' then
       let n := (cs.takeWhile (· == '*')).length
-      let r := scanName (cs.drop n)
+      let r := scanName (cs.dropWhile (· == '*'))
       some (r.1, i + 1 + n + r.2)
     else if quote3.isPrefixOf (c :: cs) then
       let r := scanName (cs.drop 2)
